@@ -307,7 +307,7 @@ fn deser_arch_by_column_leading_component_absent() {
         Err(_) => {}
     }
 }
-by_column!(deser_arch_by_column_len2, 2);
+by_column!(deep_deser_arch_by_column_len2, 2);
 
 /// column-wise, table {DS, DT, DQ} of registry (DX, DS, DT, DQ): when the third column fails, the
 /// cleanup must release the two built columns each as a Vec of ITS component (walking the built
@@ -345,4 +345,4 @@ fn deser_arch_by_column_two_built_columns_then_failure() {
 }
 by_row!(deser_arch_by_row_len0, 0);
 by_row!(deser_arch_by_row_len1, 1);
-by_row!(deser_arch_by_row_len2, 2);
+by_row!(deep_deser_arch_by_row_len2, 2);
